@@ -436,13 +436,15 @@ def try_functions(db):
 GROWERS = ('allocate_node', 'allocate_array', 'allocate', 'allocate_block', 'allocate_impl', 'reserve_memory')
 
 
-def check_failed_growth(run, db):
+def check_failed_growth(run, db, only=None):
     """a request that fails because the upstream request fails leaves the allocator as it was: in the throwing allocation functions no
     data member is written before a call to an allocation function that can throw, on the path where that call throws"""
     n = 0
     seen = set()
     for f in db.fns.values():
         if f.pattern or not f.name.startswith('foonathan::memory') or f.noexcept == 'yes' or f.short not in GROWERS or not f.cls:
+            continue
+        if only is not None and cls_template(f.cls) not in only:
             continue
         try:
             S = fwd.summarize(f, db=db, exceptional=True, roles={}, no_forward=True)
@@ -455,8 +457,10 @@ def check_failed_growth(run, db):
             if s.end != 'propagate' or not s.throws:
                 continue
             tt = s.throws[2] if len(s.throws) > 2 and isinstance(s.throws[2], dict) else {}
-            if not str(tt.get('short', '')).startswith('allocate'):
-                continue            # the library's own size checks may follow a growth (the new block is kept); upstream failure is the subject here
+            exhausted = tt.get('k') == 'throw' and 'out_of' in str(tt.get('type', ''))
+            if not str(tt.get('short', '')).startswith('allocate') and not exhausted:
+                continue            # the library's own size checks (bad_allocation_size family) may follow a growth, the new block is then kept;
+                                    # the subject here is exhaustion: an upstream request that throws, or the library's own out_of_memory
             tc = s.throw_at_call if s.throw_at_call is not None else 10 ** 9
             for w in s.writes:
                 lhs = sym.strip_casts(w[2].get('lhs') or {}) if w[2].get('ev') in ('assign', 'incdec') else {}
@@ -464,8 +468,8 @@ def check_failed_growth(run, db):
                     bad.add(w[0])
         inst = '%s [%s]' % (f.display, db.config)
         if bad:
-            run.violation('R-THROW.7', inst, f.loc, '%s written before the upstream request `%s` that can fail: a failed request changes the allocator '
-                          '(later requests are sized / routed differently)' % (', '.join(sorted(bad)), 'allocate...'),
+            run.violation('R-THROW.7', inst, f.loc, '%s written before the request for memory failed (upstream allocation call that throws, or the allocator\'s own out-of-memory throw): '
+                          'a failed request changes the allocator (later requests are sized / placed differently)' % ', '.join(sorted(bad)),
                           site={'function': '%s::%s' % (cls_template(f.cls), f.short), 'role': 'no write before a failing upstream request'})
         else:
             run.ok('R-THROW.7', inst, f.loc, 'no data member written before an upstream request that throws')
